@@ -4,7 +4,7 @@
    which execute returned, and a snapshot of the tracker and of every
    application call.  The model runs the same script with the deterministic
    scheduler [settle] and must produce exactly the same observations. *)
-From Bifrost Require Import Lib.Base SignalClient.Model.
+From Bifrost Require Export Lib.Base SignalClient.Model.
 
 Definition sgn_eqb (a b : sgn) : bool :=
   match a, b with
